@@ -62,7 +62,42 @@ impl Prop for C05 {
         let shape = if tiny { ShapeCfg::tiny() } else { ShapeCfg::swarm(rng) };
         let mut damage_fired: Vec<String> = Vec::new();
         let deep = !sweep && rng.chance(1, 40);
-        let (stream, head_len, toks) = match if deep { 99 } else { rng.below(10) } {
+        let many = !sweep && !deep && rng.chance(1, 1500);
+        let (stream, head_len, toks) = match if deep { 99 } else if many { 98 } else { rng.below(10) } {
+            // (f) a message with a very large NUMBER of tags (tiny values): counts around 2^16 and 2^17 and beyond -
+            // anything a front end does "every n-th tag / value / read" shows here
+            98 => {
+                let n = match rng.below(6) {
+                    0 => 65_535u32,
+                    1 => 65_536,
+                    2 => 65_537,
+                    3 => 131_073,
+                    _ => rng.range(60_000, 140_000) as u32,
+                };
+                let mut bytes = vec![1u8, 1, 0, 2, 0, 0, 0, 1, 0x01];
+                bytes.extend_from_slice(&[0x21, 0, 1, b'a', 0, 4, 0, 0, 0, 0]);
+                let mut tags = 3u32; // group tag, first value, end tag
+                let mut k = 0u32;
+                while tags < n {
+                    if k % 1000 == 999 {
+                        // a new attribute now and then (its own name), the rest are additional values
+                        let name = format!("n{k}");
+                        bytes.push(0x21);
+                        bytes.extend_from_slice(&(name.len() as u16).to_be_bytes());
+                        bytes.extend_from_slice(name.as_bytes());
+                    } else {
+                        bytes.extend_from_slice(&[0x21, 0, 0]);
+                    }
+                    bytes.extend_from_slice(&[0, 4]);
+                    bytes.extend_from_slice(&k.to_be_bytes());
+                    tags += 1;
+                    k += 1;
+                }
+                bytes.push(0x03);
+                damage_fired.push("very_many_tags".to_string());
+                let n = bytes.len();
+                (Stream::Raw(bytes), n, Vec::new())
+            }
             // (e) nesting that straddles the parser's depth limit, usually cut within a few bytes of the level where the
             // limit applies (both front ends must fail the same way, in the same order of checks)
             99 => {
@@ -123,7 +158,8 @@ impl Prop for C05 {
         };
         let total = head_len + payload.len();
         let opts = TraceOpts { is_async: true, eintr: false, pend: rng.chance(4, 5), after: true, cross: false, max_events: 4096 };
-        let (style, trace) = gen_trace(rng, head_len, total, &toks, &opts);
+        let (style, mut trace) = gen_trace(rng, head_len, total, &toks, &opts);
+        crate::gen::add_rare_events(rng, &mut trace, &opts, false);
         let fault = if rng.chance(1, 5) && total > 0 {
             let at = if rng.chance(3, 4) { rng.usize(0, head_len.max(1) - 0).min(total) } else { rng.usize(0, total) } as u64;
             let kind = if rng.chance(1, 3) { FaultKind::Eof } else { FaultKind::Err(*rng.pick(&ErrKind::INJECTABLE)) };
